@@ -544,6 +544,246 @@ fn one_history(arena: &Arena, rng: &mut Rng, rep: &mut Report, hb: &Heartbeat, n
     true
 }
 
+
+// ------------------------------------------------------------------------------------------
+// Concurrent histories: several threads call ensure_mapped over overlapping ranges
+// ------------------------------------------------------------------------------------------
+
+/// Write `token` to `a` / read a u64 from `a` through a private pipe (EFAULT instead of SIGSEGV).
+fn pipe_store(pipe: &[i32; 2], a: usize, token: u64) -> bool {
+    unsafe {
+        if libc::write(pipe[1], &token as *const u64 as *const _, 8) != 8 {
+            return false;
+        }
+        if libc::read(pipe[0], a as *mut _, 8) != 8 {
+            let mut b = 0u64;
+            libc::read(pipe[0], &mut b as *mut u64 as *mut _, 8);
+            return false;
+        }
+        true
+    }
+}
+fn pipe_load(pipe: &[i32; 2], a: usize) -> Option<u64> {
+    unsafe {
+        if libc::write(pipe[1], a as *const _, 8) != 8 {
+            return None;
+        }
+        let mut b = 0u64;
+        if libc::read(pipe[0], &mut b as *mut u64 as *mut _, 8) != 8 {
+            return None;
+        }
+        Some(b)
+    }
+}
+
+struct ConcThreadOut {
+    calls: u64,
+    chunks_checked: u64,
+    tokens_rechecked: u64,
+    viol: Vec<(String, String)>,
+    /// (first chunk, end chunk, errno, message) of failed calls
+    failed: Vec<(usize, usize, Option<i32>, String)>,
+    /// chunks covered by a successful call of this thread
+    mapped_ok: Vec<usize>,
+}
+
+/// A region of `REG` chunks around a slab boundary starts as a mix of Unmapped (holes punched in
+/// the reservation) and Quarantined chunks on a fresh mmapper (so the slab tables of both slabs
+/// are allocated by racing calls).  Threads then call `ensure_mapped` on random overlapping
+/// sub-ranges.  Chunk states only move forward, so whatever the other threads do, when a call
+/// returns Ok every chunk of its range must be recorded Mapped, `is_mapped_address` must hold and
+/// the memory must be writable; each thread leaves a token in every chunk it covered (at an
+/// offset of its own) and the token must still be there later: a chunk that is mapped twice
+/// (two threads both acting on the same pre-state) loses its contents or fails with EEXIST.
+fn concurrent_history(arena: &Arena, rng: &mut Rng, rep: &mut Report, hb: &Heartbeat) -> bool {
+    const REG: usize = 40;
+    const THREADS: usize = 4;
+    let b = if rng.chance(1, 2) { MARGIN_CHUNKS } else { MARGIN_CHUNKS + CHUNKS_PER_SLAB };
+    let base = b - REG / 2 + rng.usize_below(9) - 4;
+    let mm = ChunkStateMmapper::new();
+    let anno = MmapAnnotation::Misc { name: "verif-c30c" };
+    let addr = |x: usize| unsafe { Address::from_usize(x) };
+    // pre-state: runs of U and Q
+    let mut pre = vec![U; REG];
+    let mut i = 0;
+    while i < REG {
+        let len = 1 + rng.usize_below(6);
+        let st = if rng.chance(1, 2) { Q } else { U };
+        for k in i..(i + len).min(REG) {
+            pre[k] = st;
+        }
+        i += len;
+    }
+    let iters = 10 + rng.usize_below(8);
+    let seed = rng.next();
+    let start_gate = std::sync::Barrier::new(THREADS + 1);
+    let ready_gate = std::sync::Barrier::new(THREADS + 1);
+    let (mm_r, pre_r, start_r, ready_r) = (&mm, &pre, &start_gate, &ready_gate);
+    let lo = arena.lo;
+    let mut prep_failed = false;
+    let outs: Vec<ConcThreadOut> = std::thread::scope(|s| {
+        let hs: Vec<_> = (0..THREADS)
+            .map(|t| {
+                s.spawn(move || {
+                    // everything this thread allocates is allocated before the holes exist, so
+                    // that neither its stack nor its malloc arena can land in one of them
+                    let mut out = ConcThreadOut { calls: 0, chunks_checked: 0, tokens_rechecked: 0, viol: Vec::with_capacity(8), failed: Vec::with_capacity(32), mapped_ok: Vec::with_capacity(REG * 32) };
+                    let mut tokens: Vec<(usize, u64)> = Vec::with_capacity(REG * 32);
+                    let mut pipe = [0i32; 2];
+                    let pipe_ok = unsafe { libc::pipe(pipe.as_mut_ptr()) } == 0;
+                    let mut rng = Rng::new(mix(seed, t as u64 + 1));
+                    let anno = MmapAnnotation::Misc { name: "verif-c30c" };
+                    ready_r.wait();
+                    start_r.wait();
+                    if !pipe_ok {
+                        return out;
+                    }
+                    for it in 0..iters {
+                        let c0 = rng.usize_below(REG);
+                        let c1 = (c0 + 1 + rng.usize_below(10)).min(REG);
+                        let start_off = (base + c0) * CHUNK + if rng.chance(1, 2) { 0 } else { PAGE * (1 + rng.usize_below(PAGES_IN_CHUNK - 1)) };
+                        let mut end_off = (base + c1) * CHUNK - if rng.chance(1, 2) { 0 } else { PAGE * (1 + rng.usize_below(PAGES_IN_CHUNK - 1)) };
+                        if end_off <= start_off {
+                            end_off = (start_off + PAGE).min((base + c1) * CHUNK);
+                        }
+                        let pages = (end_off - start_off) / PAGE;
+                        let r = catch_unwind(AssertUnwindSafe(|| {
+                            mm_r.ensure_mapped(unsafe { Address::from_usize(lo + start_off) }, pages, HugePageSupport::No, MmapProtection::ReadWrite, &anno)
+                                .map_err(|e| (e.error.raw_os_error(), e.to_string()))
+                        }));
+                        out.calls += 1;
+                        match r {
+                            Err(_) => {
+                                if out.viol.len() < 4 {
+                                    out.viol.push(("mmapper:concurrent:ensure_mapped:panic".to_string(), format!("thread {} iteration {} range chunks {}..{} of the region (region base chunk {})", t, it, c0, c1, base)));
+                                }
+                                return out;
+                            }
+                            Ok(Err((errno, msg))) => out.failed.push((c0, c1, errno, msg)),
+                            Ok(Ok(())) => {
+                                for c in c0..c1 {
+                                    let a = lo + (base + c) * CHUNK;
+                                    out.chunks_checked += 1;
+                                    out.mapped_ok.push(c);
+                                    let st = mm_r.verif_get_state(unsafe { Address::from_usize(a) });
+                                    let ima = mm_r.is_mapped_address(unsafe { Address::from_usize(a + 8 * t) });
+                                    let token = ((t as u64 + 1) << 48) | ((it as u64) << 32) | (c as u64 + 1);
+                                    let slot = a + 64 * (c % 7) + 8 * t;
+                                    let stored = pipe_store(&pipe, slot, token);
+                                    let mut bad = None;
+                                    if st != M {
+                                        bad = Some(("in-range-chunk-not-mapped-when-the-call-returned", format!("recorded state {}", st)));
+                                    } else if !ima {
+                                        bad = Some(("is_mapped_address-false-for-mapped", String::new()));
+                                    } else if !stored {
+                                        bad = Some(("mapped-chunk-not-writable", "EFAULT".to_string()));
+                                    }
+                                    if stored {
+                                        tokens.push((slot, token));
+                                    }
+                                    if let Some((k, d)) = bad {
+                                        if out.viol.len() < 4 {
+                                            out.viol.push((format!("mmapper:concurrent:ensure_mapped:{}", k), format!("thread {} iteration {} call range chunks {}..{}, chunk {} of the region (region base chunk {}, pre-state {}) {}", t, it, c0, c1, c, base, pre_r[c], d)));
+                                        }
+                                    }
+                                }
+                            }
+                        }
+                        // tokens written earlier must still be there (overwritten only by myself)
+                        let mut seen = std::collections::HashSet::new();
+                        for &(slot, token) in tokens.iter().rev() {
+                            if !seen.insert(slot) {
+                                continue;
+                            }
+                            out.tokens_rechecked += 1;
+                            let got = pipe_load(&pipe, slot);
+                            if got != Some(token) && out.viol.len() < 4 {
+                                out.viol.push(("mmapper:concurrent:mapped-chunk-lost-its-contents".to_string(), format!("thread {}: token {:#x} written to lo+{:#x} after ensure_mapped returned reads back as {:x?} at iteration {} (the chunk was mapped again or unmapped); region base chunk {}", t, token, slot - lo, got, it, base)));
+                            }
+                        }
+                    }
+                    unsafe {
+                        libc::close(pipe[0]);
+                        libc::close(pipe[1]);
+                    }
+                    out
+                })
+            })
+            .collect();
+        // all threads exist and have allocated: now create the pre-state
+        ready_gate.wait();
+        let mut ok = arena.punch(base, base + REG);
+        if ok {
+            for (s0, e0) in runs(&pre, 0, REG, Q) {
+                hb.enter("mmapper:concurrent:quarantine_address_range", || format!("pre-state chunks {}..{}", base + s0, base + e0));
+                let r = catch_unwind(AssertUnwindSafe(|| mm.quarantine_address_range(addr(arena.addr(base + s0)), (e0 - s0) * PAGES_IN_CHUNK, HugePageSupport::No, &anno)));
+                hb.leave();
+                ok &= matches!(r, Ok(Ok(())));
+            }
+        }
+        prep_failed = !ok;
+        hb.enter("mmapper:concurrent:ensure_mapped", || format!("{} threads over {} chunks at region base chunk {}", THREADS, REG, base));
+        start_gate.wait();
+        let outs = hs.into_iter().map(|h| h.join().expect("C30 concurrent thread died")).collect();
+        hb.leave();
+        outs
+    });
+    if prep_failed {
+        rep.inconclusive("concurrent history: the pre-state could not be set up (munmap / quarantine failed)");
+        return false;
+    }
+    rep.count("concurrent_histories", 1);
+    let mut covered = vec![false; REG];
+    for o in &outs {
+        for &c in &o.mapped_ok {
+            covered[c] = true;
+        }
+    }
+    let mut cont = true;
+    for (t, o) in outs.iter().enumerate() {
+        rep.count("concurrent_ensure_mapped_calls", o.calls);
+        rep.count("concurrent_chunks_checked", o.chunks_checked);
+        rep.count("concurrent_tokens_rechecked", o.tokens_rechecked);
+        rep.evaluations += o.calls;
+        for (sg, d) in &o.viol {
+            rep.violation(sg.clone(), d.clone());
+        }
+        for (c0, c1, errno, msg) in &o.failed {
+            // A failure is the mmapper's only if one of the chunks was (also) mapped by another
+            // call of this history: the two calls were not serialised.
+            let raced = (*c0..*c1).any(|c| covered[c]);
+            if *errno == Some(libc::EEXIST) && raced {
+                rep.violation(
+                    "mmapper:concurrent:ensure_mapped:EEXIST-on-a-chunk-another-call-mapped",
+                    format!("thread {} range chunks {}..{} of the region at base chunk {}: {} (another ensure_mapped call of this history mapped a chunk of the range: the calls acted on the same pre-state)", t, c0, c1, base, msg),
+                );
+            } else {
+                rep.inconclusive(format!("concurrent history: ensure_mapped failed in the OS: {}", msg));
+                cont = false;
+            }
+        }
+    }
+    // quiescent: covered chunks Mapped, uncovered ones still in their pre-state, neighbours untouched
+    for c in 0..REG {
+        let st = mm.verif_get_state(addr(arena.addr(base + c)));
+        let want = if covered[c] { M } else { pre[c] };
+        if st != want {
+            rep.violation(
+                "mmapper:concurrent:final-state-differs",
+                format!("chunk {} of the region at base chunk {}: recorded state {} expected {} (pre-state {}, covered by a successful call: {})", c, base, st, want, pre[c], covered[c]),
+            );
+            break;
+        }
+    }
+    for a in [arena.addr(base) - CHUNK, arena.addr(base + REG)] {
+        if mm.verif_get_state(addr(a)) != U {
+            rep.violation("mmapper:concurrent:chunk-outside-range-changed", format!("address lo+{:#x}, region base chunk {}", a - arena.lo, base));
+        }
+    }
+    rep.key(mix(0xC30C, mix(b as u64, pre.iter().filter(|&&x| x == Q).count() as u64)));
+    cont
+}
+
 pub fn run(args: &Args, rep: &mut Report) {
     let mut rng = Rng::new(args.seed() ^ 0xC30);
     let arena = match Arena::new() {
@@ -560,6 +800,18 @@ pub fn run(args: &Args, rep: &mut Report) {
         for _ in 0..histories {
             let n = 10 + rng.usize_below(ops);
             let cont = one_history(&arena, &mut rng, rep, hb, n);
+            hb.tick();
+            if !arena.reset() {
+                rep.inconclusive("could not reset the arena");
+                break;
+            }
+            if !cont && rep.inconclusive.len() > 5 {
+                break;
+            }
+        }
+        let conc = if args.thorough() { 1500 } else { 120 };
+        for _ in 0..conc {
+            let cont = concurrent_history(&arena, &mut rng, rep, hb);
             hb.tick();
             if !arena.reset() {
                 rep.inconclusive("could not reset the arena");
